@@ -32,6 +32,7 @@ THEOREMS = [
     "Verif.C04.repair_spec",
     "Verif.C04.arith_spec",
     "Verif.C04.arith_refused",
+    "Verif.C04.F9_witness",
 ]
 RULE = (
     "corpus (F3 inputs for a continuous channel and a time series, the like/partial-window input) + exhaustive small "
